@@ -12,15 +12,44 @@ class Start:
         return self._v
 
 
-def run_impl(mod, v0, ops):
+def val(o):
+    """the value of an update op: a bare int (duck-typed start) or a real SequenceStart subclass built from its wire values"""
+    if isinstance(o, int):
+        return o
+    if o[0] in ('simple', 'acct'):
+        return o[1]
+    if o[0] == 'init':
+        return o[1] * 7 + o[2] - 13
+    if o[0] == 'ping':
+        return o[1] - o[2]
+    raise ValueError(o)
+
+
+def mk(ss, o):
+    if isinstance(o, int) or ss is None:
+        return Start(val(o))
+    if o[0] == 'simple':
+        return ss.SimpleSequenceStart(o[1])
+    if o[0] == 'acct':
+        return ss.AccountReplySequenceStart.from_value(o[1])
+    if o[0] == 'init':
+        return ss.InitSequenceStart.from_init_values(o[1], o[2])
+    return ss.PingSequenceStart.from_ping_values(o[1], o[2])
+
+
+def show(o):
+    return 'next' if o is None else o if isinstance(o, int) else list(o)
+
+
+def run_impl(mod, v0, ops, ss=None):
     def go():
-        s = mod.PacketSequencer(Start(v0))
+        s = mod.PacketSequencer(mk(ss, v0))
         out = []
         for o in ops:
             if o is None:
                 out.append(s.next_sequence())
             else:
-                r = s.set_sequence_start(Start(o))
+                r = s.set_sequence_start(mk(ss, o))
                 if r is not None:
                     raise RuntimeError("set_sequence_start returned a value")
         return out
@@ -28,18 +57,18 @@ def run_impl(mod, v0, ops):
 
 
 def spec(v0, ops):
-    cur, n, out = v0, 0, []
+    cur, n, out = val(v0), 0, []
     for o in ops:
         if o is None:
             out.append(cur + n % 10)
             n += 1
         else:
-            cur = o
+            cur = val(o)
     return out
 
 
 def cop(o):
-    return 'Next' if o is None else f"(SetStart {cz(o)})"
+    return 'Next' if o is None else f"(SetStart {cz(val(o))})"
 
 
 GRUN = """
@@ -55,9 +84,20 @@ Fixpoint grun (g : EO.Gen.G_packet_sequencer.PacketSequencer_st) (ops : list EO.
 def run(tier):
     C = Check('C13', tier)
     C.prove('Properties/C13.v', units=['G_packet_sequencer'], bridges={'Bridge/B_sequencer.v': ['G_packet_sequencer']})
-    mod = load_leaf(C.scratch.src, 'eolib.packet.packet_sequencer')
+    mod, ss = load_leaf(C.scratch.src, 'eolib.packet.packet_sequencer', 'eolib.packet.sequence_start')
     rng = C.rng
     hist = []
+    # the real SequenceStart classes as updates: same wire pair under different classes (different values), equal values under
+    # different classes, the same update twice, value 0 reached through every constructor
+    real = [('init', 20, 5), ('ping', 20, 5), ('init', 1, 6), ('ping', 7, 7), ('acct', 0), ('simple', 0), ('acct', 132), ('simple', 15), ('simple', 132)]
+    for a in real:
+        for b in real:
+            hist.append((a, [None, None, b, None, None, b, None, a, None] + [None] * 9))
+    for _ in range(150 if tier == 'quick' else 1500):
+        pool = [rng.choice(real), ('init', rng.randrange(0, 253), rng.randrange(0, 253)), ('ping', rng.randrange(0, 253), rng.randrange(0, 253)),
+                ('acct', rng.randrange(0, 240)), ('simple', rng.randrange(0, 70000))]
+        pool.append((rng.choice(['init', 'ping']),) + pool[rng.randrange(1, 3)][1:])       # the same pair under the other class
+        hist.append((rng.choice(pool), [rng.choice(pool) if rng.random() < 0.3 else None for _ in range(rng.randrange(1, 60))]))
     depth = 7 if tier == 'quick' else 10
     for L in range(0, depth + 1):
         for t in itertools.product((None, 3, 1000), repeat=L):
@@ -73,21 +113,21 @@ def run(tier):
                      [rng.choice([0, 9, 10, 1756, rng.randrange(0, 70000), -3]) if rng.random() < p else None for _ in range(L)]))
     cases = []
     for v0, ops in hist:
-        r = run_impl(mod, v0, ops)
+        r = run_impl(mod, v0, ops, ss)
         cases.append(((v0, ops), r))
         if r != ('ok', spec(v0, ops)) and not C.violations:
             got = r[1] if r[0] == 'ok' else r
             exp = spec(v0, ops)
             k = next((i for i, (a, b) in enumerate(zip(got, exp)) if a != b), None) if r[0] == 'ok' else None
-            C.violation(f"history start={v0} ops={['next' if o is None else o for o in ops]}: request #{k} returned "
+            C.violation(f"history start={show(v0)} ops={[show(o) for o in ops]}: request #{k} returned "
                         f"{got[k] if k is not None else got}, expected {exp[k] if k is not None else exp}",
-                        dict(unit='packet_sequencer', input=dict(start=v0, ops=['next' if o is None else o for o in ops])))
+                        dict(unit='packet_sequencer', input=dict(start=show(v0), ops=[show(o) for o in ops])))
     nt = lambda c: len([o for o in c[0][1] if o is None]) > 10 and any(o is not None for o in c[0][1])
     C.stream('oracle.histories', len(cases), len({repr(c[0]) for c in cases if nt(c)}), exhaustive=False,
-             sample=dict(start=hist[len(hist) // 2][0], ops=['next' if o is None else o for o in hist[len(hist) // 2][1]][:30]))
+             sample=dict(start=show(hist[len(hist) // 2][0]), ops=[show(o) for o in hist[len(hist) // 2][1]][:30]))
     C.cov['bounded_exhaustive'] = f"all histories of length <= {depth} over {{next, set 3, set 1000}}"
     sub = cases if len(cases) <= 6000 else cases[::len(cases) // 6000 + 1] + cases[-400:]
-    term = lambda c: f"(({cz(c[0][0])}, {clist(c[0][1], cop)}), {cres(c[1], clist)})"
+    term = lambda c: f"(({cz(val(c[0][0]))}, {clist(c[0][1], cop)}), {cres(c[1], clist)})"
     specs = [dict(label='M.run', ty='(Z * list EO.Model.Sequencer.sop) * res (list Z)', cases=sub, term=term, nontrivial=nt,
                   chk="fun c => res_eqb list_eqb (Ok (EO.Model.Sequencer.run (EO.Model.Sequencer.seqr_init (fst (fst c))) (snd (fst c)))) (snd c)")]
     imports = "Require EO.Model.Sequencer.\nImport EO.Model.Sequencer.\n"
@@ -102,8 +142,24 @@ def run(tier):
             for t in itertools.product((None, 3), repeat=L):
                 for extra in ([], [None] * 12, [None] * 9 + [50] + [None] * 3):
                     ops = list(t) + extra
-                    r = run_impl(mod, 7, ops)
+                    r = run_impl(mod, 7, ops, ss)
                     if r != ('ok', spec(7, ops)):
                         return C.violation(f"history start=7 ops={['next' if o is None else o for o in ops]} returned {r}, expected {spec(7, ops)}",
                                            dict(unit='packet_sequencer', input=dict(start=7, ops=['next' if o is None else o for o in ops])))
     return C.finish(search=search)
+
+
+def replay(path):
+    import json
+    r = json.load(open(path))
+    inp = r.get('input')
+    if not inp:
+        return replay_broken(r, 'C13')
+    s = Scratch()
+    mod, ss = load_leaf(s.src, 'eolib.packet.packet_sequencer', 'eolib.packet.sequence_start')
+    un = lambda o: None if o == 'next' else o if isinstance(o, int) else tuple(o)
+    v0, ops = un(inp['start']), [un(o) for o in inp['ops']]
+    got = run_impl(mod, v0, ops, ss)
+    w = None if got == ('ok', spec(v0, ops)) else f"history start={inp['start']} ops={inp['ops']} returned {got}, expected {spec(v0, ops)}"
+    print("replay:", w or "property holds on this input")
+    return 1 if w else 0
